@@ -21,10 +21,10 @@ from tools import common, shroudrun
 LEVEL = "proof"
 MANIFEST = dict(
     category="proof",
-    text="Lean 4 theorems (79, all axioms within propext/Classical.choice/Quot.sound) on a model of the Fortran wrapper path. "
+    text="Lean 4 theorems (84, all axioms within propext/Classical.choice/Quot.sound) on a model of the Fortran wrapper path. "
          "(1) Shape lemmas, for all values, lengths and extents, of the trip of one argument or result through Fortran pre_call, the "
          "bind(C) actuals per buf_arg, the bufferify or CFI C wrapper, the library, C post_call, storage association and Fortran "
-         "post_call, for 31 kinds: logical<->bool in/out/inout; scalars by value; pointer/array pass-through and allocatable out arrays; "
+         "post_call, for 32 kinds: logical<->bool in/out/inout; scalars by value; pointer/array pass-through and allocatable out arrays; "
          "character and std::string in/out/inout and results copied into character(len=L) (library receives the NUL-terminated text "
          "without trailing blanks, caller holds take L (s ++ blanks), temporaries released), both through the buf and the cfi entries; "
          "std::vector in/out/inout/result with and without allocatable (min(size) elements copied, exact size when allocatable, heap "
@@ -41,6 +41,11 @@ MANIFEST = dict(
          "functions with all-in arguments (pure_only_when_licensed, not_pure_without_licence); `&` is applied to a C wrapper parameter "
          "exactly for by-value declarations (c_addr_iff_by_value), so a struct by value, pointer or reference reaches the library as the "
          "caller's struct and comes back modified through pointer/reference (struct_pass_through; `&` on a pointer parameter is undefined). "
+         "(2d) The VALUE attribute of a bind(C) dummy as check_arg_attrs defaults it (valueAttr): VALUE exactly for non-array by-value "
+         "declarations and for single-pointer `void *` (value_attr_rule), an explicit +value kept (value_attr_given); `void *` gets VALUE in "
+         "every const / explicit-intent spelling (void_pointer_by_value), its table entries are the default blocks, so the library receives "
+         "the very address the caller's type(C_PTR) holds (void_pointer_pass_through); without VALUE it would receive the address of the "
+         "caller's variable (void_pointer_without_value_wrong). "
          "(3) Assembly for all parameter lists: declaration order, this first, hidden/implied dropped from the API and supplied to C; "
          "implied expressions (size/len/len_trim/type/true/false/arithmetic) evaluate to the caller's own inquiry values and type(a) to the "
          "wrapped function's own declaration; routing through _PTR_F_C_index / _PTR_C_CXX_index chains, default-argument clones are "
@@ -54,7 +59,7 @@ MANIFEST = dict(
          "template lines -> op codes by an explicit regex pattern table that captures the variable in each position, clause-level "
          "patterns for the vector<string> loops, a probe of the real pipeline for context shape/size; unknown line => loud failure) and "
          "(D) per-function correspondence of the real generate_functions+Wrapc+Wrapf with assembleF / lookup / routeC / genericTargets / "
-         "collectGenerics / IExpr.render on generated descriptions (feature combinations printed into the evidence) and the upstream "
+         "collectGenerics / IExpr.render / valueAttr (inputs and result captured around the real check_arg_attrs) on generated descriptions (feature combinations printed into the evidence) and the upstream "
          "corpus. Trusted / modelled, not verified: the meaning the pattern table assigns to template lines; the hand-written model of "
          "wrap_function_impl and generic_function; byte-level helper semantics of C10; gfortran/gcc/g++ code generation, Fortran argument "
          "association and the address sanitizer; that format dictionaries of different arguments use different names. Still opaque ops: "
@@ -90,6 +95,7 @@ THEOREMS = {
         "ifaceBlockGuard_all", "generic_member_own_condition", "assumed_rank_variants",
         "pure_only_when_licensed", "not_pure_without_licence", "c_addr_iff_by_value", "struct_entry", "struct_pass_through",
         "struct_addr_of_pointer_undefined",
+        "value_attr_rule", "value_attr_given", "void_pointer_by_value", "void_pointer_pass_through", "void_pointer_without_value_wrong",
     ]]
 }
 
@@ -124,7 +130,8 @@ def _arg(r, i, cxx, have_arrays):
         "%s *%s +intent(out)+dimension(3)" % (t, n), "%s *%s +intent(out)+hidden" % (t, n),
         "bool %s" % n, "bool *%s +intent(out)" % n, "bool *%s +intent(inout)" % n,
         "const char *%s" % n, "char *%s +intent(out)+charlen(20)" % n, "char *%s +intent(inout)" % n, "char %s" % n,
-        "char *%s +intent(out)+len(8)" % n, "void *%s" % n, "const %s *%s +intent(in)+deref(raw)" % (t, n),
+        "char *%s +intent(out)+len(8)" % n, "void *%s" % n, "const void *%s" % n, "void *%s +intent(in)" % n, "const void *%s +intent(in)" % n,
+        "const %s *%s +intent(in)+deref(raw)" % (t, n),
         "%s **%s +intent(out)" % (t, n), "Color %s" % n, "const Pt *%s" % n, "Pt *%s +intent(out)" % n,
     ]
     if have_arrays:
@@ -362,14 +369,14 @@ def run(ctx):
         "Lean 4.33.0 kernel; axioms within {propext, Classical.choice, Quot.sound}",
         "tools/extract_fstmts.py: the regex / clause pattern table assigns each template line the op it means (variables captured per "
         "position); the probe of wrapc.set_fmt_fields parses c_array_shape / c_array_size; unknown line => TranslatorError",
-        "Model/WrapF.lean (runArgWith, assembleF, lookup, routeC, genericTargets, collectGenerics, IExpr): validated against the code by "
+        "Model/WrapF.lean (runArgWith, assembleF, lookup, routeC, genericTargets, collectGenerics, IExpr, valueAttr, cptrAtBoundary): validated against the code by "
         "correspondence on generated descriptions and the corpus, not derived from it",
         "Model/StrHelpers.lean + Props/C10 (byte-level helper semantics, imported lemmas)",
         "gfortran/gcc/g++ 12, Fortran argument association, the address sanitizer (oracle)",
     ]
     ctx.cov["rule"] = ("tie: one evaluation per Fortran-wrapped function (assembly: statements, F_arg_c_call, F_arguments), per route "
                        "(F_C_call vs index chain), per fortran_generic function incl. default-argument clones (clone targets), per emitted "
-                       "implied expression (text per wrapper), per library (generic interfaces); non-trivial = >= 2 C actuals or >= 1 "
+                       "implied expression (text per wrapper), per declared parameter (VALUE attribute), per library (generic interfaces); non-trivial = >= 2 C actuals or >= 1 "
                        "argument block, a route that leaves the node, distinct clone targets, an implied expression, a library with a "
                        "generic interface; oracle: one evaluation per (library, configuration) compiled and run with a trace equal to the "
                        "expectation computed from the declaration; kind coverage per run in notes.oracle_kind_coverage; distinct = "
